@@ -202,6 +202,17 @@ fn check_history(rep: &mut Report, h: &[Line], ps: &[Line], max_removals: usize,
         let (kind, stc) = cls[i];
         rep.class(format!("{}|{:?}|pos={}", stc, kind, if i + 1 == h.len() { "last" } else if i == 0 { "first" } else { "middle" }));
         rep.count(&format!("removed:{:?}", kind));
+        if rep.samples.len() < 5 {
+            rep.sample(5, || {
+                let mut o = J::obj();
+                o.set("history", J::Arr(h.iter().take(8).map(|(l, _)| J::bytes(&l[..l.len().min(90)])).collect()));
+                o.set("removed_index", J::i(i as u64));
+                o.set("inert_kind", J::s(&format!("{:?}", kind)));
+                o.set("probes_compared", J::i(ps.len() as u64));
+                o.set("difference", J::s(if differs.is_some() { "yes" } else { "none" }));
+                o
+            });
+        }
         if let Some(why) = differs {
             let mut o = mon::replay_history(h, note);
             o.set("inert_line_index", J::i(i as u64));
